@@ -271,7 +271,16 @@ type Scenario struct {
 // Run executes the scenario (as the body of one vsched execution, or free of
 // the scheduler) and returns its environment.
 func (sc *Scenario) Run() *Env {
+	var e *Env
+	sc.RunInto(&e)
+	return e
+}
+
+// RunInto is Run publishing the environment before the first operation (so
+// that an aborted execution still leaves its observations).
+func (sc *Scenario) RunInto(out **Env) *Env {
 	e := NewEnv(&sc.Spec)
+	*out = e
 	for k, v := range sc.Faults {
 		e.W.Faults[k] = v
 	}
